@@ -100,6 +100,32 @@ def run_check(mod, tier: str, seed: int, budget_s: float | None = None, replay: 
                 pool.terminate()
                 break
 
+    # ---- determinism guard: a fixed 1-in-20 stride re-run in an interpreter with another hash seed
+    hash_mismatch = []
+    hash_checked = 0
+    if not capped and not os.environ.get("VERIF_NO_HASHCHECK"):
+        import subprocess
+
+        stride, budget = [], 15.0  # seconds of single-process work
+        for i, r in enumerate(results):
+            if i % 20 == 0 and r["dt"] <= budget and len(stride) < 60:
+                stride.append(r)
+                budget -= r["dt"]
+        if stride:
+            env = dict(os.environ, PYTHONHASHSEED="1")
+            try:
+                proc = subprocess.run([sys.executable, "-m", "pmbverif.rerun", mod.__name__],
+                                      input=json.dumps([r["case"] for r in stride]), capture_output=True,
+                                      text=True, env=env, timeout=900)
+                second = json.loads(proc.stdout)
+                for r, s2 in zip(stride, second):
+                    hash_checked += 1
+                    first = {"outcome": str(r.get("outcome")), "violations": sorted(v["what"] for v in r["violations"])}
+                    if first != s2:
+                        hash_mismatch.append((r["case"], first, s2))
+            except Exception as e:  # noqa: BLE001
+                hash_mismatch.append(({}, "rerun failed", str(e)[:200]))
+
     # ---- violations: confirm by re-execution, classify against known findings
     viol_lines = []
     known_lines = []
@@ -185,6 +211,7 @@ def run_check(mod, tier: str, seed: int, budget_s: float | None = None, replay: 
         "outcome_histogram": dict(outcomes.most_common(12)),
         "known_findings_matched": dict(seen_known),
         "cpu_s": round(sum(r["dt"] for r in results), 1),
+        "rerun_under_second_hash_seed": hash_checked,
     }
     if capped:
         coverage["cap"] = f"time budget {budget_s}s hit after {evaluations}/{total_cases} cases (enumeration order: smallest structures first)"
@@ -202,11 +229,16 @@ def run_check(mod, tier: str, seed: int, budget_s: float | None = None, replay: 
         "wall_s": round(time.time() - t0, 2),
         "violations": n_viol,
     }
-    os.makedirs(EVIDENCE_DIR, exist_ok=True)
-    with open(os.path.join(EVIDENCE_DIR, f"{pid}.json"), "w") as f:
-        json.dump(ev, f, indent=1, default=str)
+    if not os.environ.get("VERIF_NO_EVIDENCE"):  # set only when evaluating seeded changes
+        os.makedirs(EVIDENCE_DIR, exist_ok=True)
+        with open(os.path.join(EVIDENCE_DIR, f"{pid}.json"), "w") as f:
+            json.dump(ev, f, indent=1, default=str)
     summary = {k: coverage[k] for k in coverage if k not in ("samples", "rule", "outcome_histogram")}
     print(f"{pid} tier={tier} seed={seed}: {json.dumps(summary, default=str)} wall={ev['wall_s']}s")
+    if hash_mismatch:
+        for case, a, b in hash_mismatch[:3]:
+            print(f"HARNESS-ERROR {pid}: result depends on PYTHONHASHSEED: case={json.dumps(case, default=str)[:200]} first={str(a)[:200]} second={str(b)[:200]}")
+        return 2
     if harness_errors:
         for case, a, b in harness_errors[:5]:
             print(f"HARNESS-ERROR {pid}: case={json.dumps(case, default=str)[:300]}\n   first={str(a[:1])[:600]}\n   second={str(b[:1])[:300]}")
